@@ -81,6 +81,11 @@ pub enum Answer {
     /// base is congruent to 2^v modulo 8192
     GrantV(u8),
     Refuse,
+    /// refuse this request and every later request of the same operation ("fail everything")
+    RefuseRest,
+    /// from this request on (within the operation) refuse every request larger than 2^k bytes and grant
+    /// the others ("fail all requests above a size")
+    RefuseAbove(u8),
 }
 
 impl Answer {
@@ -89,12 +94,16 @@ impl Answer {
             Answer::Default => 0,
             Answer::Refuse => 1,
             Answer::GrantV(v) => 2 + v,
+            Answer::RefuseRest => 250,
+            Answer::RefuseAbove(k) => 180 + k,
         }
     }
     pub fn from_code(c: u8) -> Answer {
         match c {
             0 => Answer::Default,
             1 => Answer::Refuse,
+            250 => Answer::RefuseRest,
+            c if (180..250).contains(&c) => Answer::RefuseAbove(c - 180),
             v => Answer::GrantV(v - 2),
         }
     }
@@ -163,6 +172,7 @@ pub struct ExecEnv {
     pub script_len: usize,
     /// answer for requests beyond the script
     pub default_answer: Answer,
+    pub sticky: Option<Answer>,
     pub policy: Policy,
     pub reqs: Vec<ReqLog>,
     pub frees: Vec<FreeLog>,
@@ -189,6 +199,7 @@ impl ExecEnv {
             script: [Answer::Default; 8],
             script_len: 0,
             default_answer: Answer::Default,
+            sticky: None,
             policy: Policy { cap: 1 << 20, refuse_all: false },
             reqs: Vec::with_capacity(64),
             frees: Vec::with_capacity(64),
@@ -228,6 +239,7 @@ impl ExecEnv {
         self.script_len = script.len().min(8);
         self.script[..self.script_len].copy_from_slice(&script[..self.script_len]);
         self.same_refused = (0, 0, 0);
+        self.sticky = None;
     }
 
     pub fn live_blocks(&self, arena: usize) -> impl Iterator<Item = &Block> {
@@ -296,6 +308,21 @@ impl ExecEnv {
         let size = layout.size();
         let align = layout.align();
         let mut ans = if idx < self.script_len { self.script[idx] } else { self.default_answer };
+        // sticky answers govern the rest of the operation (an explicit later answer still wins)
+        match ans {
+            Answer::RefuseRest | Answer::RefuseAbove(_) => self.sticky = Some(ans),
+            Answer::Default => {
+                if let Some(st) = self.sticky {
+                    ans = st;
+                }
+            }
+            _ => {}
+        }
+        ans = match ans {
+            Answer::RefuseRest => Answer::Refuse,
+            Answer::RefuseAbove(k) => if size > (1usize << k) { Answer::Refuse } else { Answer::Default },
+            a => a,
+        };
         let mut forced = false;
         if size > self.policy.cap || align > (1 << 20) || self.policy.refuse_all {
             ans = Answer::Refuse;
@@ -303,7 +330,7 @@ impl ExecEnv {
         }
         let log2a = align.trailing_zeros() as u8;
         let v = match ans {
-            Answer::Refuse => None,
+            Answer::Refuse | Answer::RefuseRest | Answer::RefuseAbove(_) => None,
             Answer::Default => Some(log2a),
             Answer::GrantV(v) => Some(v.max(log2a)),
         };
